@@ -493,7 +493,7 @@ async fn one_stream(rep: &mut Report, cmds: &[Argv], cfg: &Cfg, segs: &[Vec<usiz
 
 /// (kind, bytes) — each unambiguously a protocol error once fully received
 fn malformed_corpus() -> Vec<(&'static str, Vec<u8>)> {
-    vec![
+    let mut v = vec![
         ("bad-type-byte", b("!foo\r\n")),
         ("inline-command", b("PING\r\n")),
         ("bulk-len-neg2", b("*1\r\n$-2\r\nPING\r\n")),
@@ -514,7 +514,27 @@ fn malformed_corpus() -> Vec<(&'static str, Vec<u8>)> {
         ("set-with-u64max-vallen", b("*3\r\n$3\r\nSET\r\n$1\r\na\r\n$18446744073709551615\r\nx\r\n")),
         ("get-with-u64max-keylen", b("*2\r\n$3\r\nGET\r\n$18446744073709551615\r\nx\r\n")),
         ("empty-command-name", b("*1\r\n$0\r\n\r\n")),
-    ]
+    ];
+    // near-misses of the two frames the connection handler recognises by their first bytes (GET, SET):
+    // one structural byte doubled. Short, long enough to pass the pipelining size gate on its own, and
+    // repeated (so that a batch collector that accepted them would reach its threshold).
+    let k50 = "k".repeat(50);
+    let g = |name: &str, klen: &str, key: &str| format!("*2\r\n$3\r\n{}\r\n$${}\r\n{}\r\n", name, klen, key).into_bytes();
+    let st = |name: &str, klen: &str, key: &str| format!("*3\r\n$3\r\n{}\r\n$${}\r\n{}\r\n$1\r\nb\r\n", name, klen, key).into_bytes();
+    v.push(("get-doubled-dollar", g("GET", "1", "a")));
+    v.push(("get-doubled-dollar-long", g("GET", "50", &k50)));
+    v.push(("get-doubled-dollar-long-lowercase", g("get", "50", &k50)));
+    v.push(("get-doubled-dollar-long-x2", [g("GET", "50", &k50), g("GET", "50", &k50)].concat()));
+    v.push(("get-doubled-dollar-u64max", g("GET", "18446744073709551615", "a")));
+    v.push(("get-doubled-dollar-u64max-x2", [g("GET", "18446744073709551615", "a"), g("GET", "18446744073709551615", "a")].concat()));
+    v.push(("set-doubled-dollar", st("SET", "1", "a")));
+    v.push(("set-doubled-dollar-long", st("SET", "50", &k50)));
+    v.push(("set-doubled-dollar-long-x2", [st("set", "50", &k50), st("SET", "50", &k50)].concat()));
+    v.push(("set-doubled-dollar-u64max-x2", [st("SET", "18446744073709551615", "a"), st("SET", "18446744073709551615", "a")].concat()));
+    v.push(("doubled-star", b("**1\r\n$4\r\nPING\r\n")));
+    v.push(("doubled-cr-in-bulk-header", b("*1\r\n$4\r\r\nPING\r\n")));
+    v.push(("lf-after-array-header", b("*1\r\n\n$4\r\nPING\r\n")));
+    v
 }
 
 async fn malformed_case(rep: &mut Report, kind: &str, bad: &[u8], prefix: &[Argv], cfg: &Cfg, points: &[usize]) {
